@@ -989,7 +989,7 @@ FP_OPS = {"fadd", "fsub", "fmul", "fdiv", "call:llvm.sqrt", "call:llvm.fma", "ca
 def has_fp(t):
     """does the closed form contain rounding-mode sensitive float arithmetic"""
     seen = set()
-    if contains_op(t, ("spec:c_fdim", "spec:c_frac", "spec:c_ldexp")):
+    if contains_op(t, ("spec:c_fdim", "spec:c_frac", "spec:c_ldexp", "mxcsr0")):
         return True
     stack = [t]
     while stack:
@@ -1804,6 +1804,9 @@ def _ev(t, env, memo):
         return t[2]
     if o == "arg":
         return (env["args"][t[2]] >> t[3]) & M
+    if o == "mxcsr0":
+        # the MXCSR the function finds: default masks, FTZ/DAZ clear, RC = the rounding mode of the evaluation
+        return 0x1F80 | ({"RN": 0, "RD": 1, "RU": 2, "RZ": 3}[env.get("rm", "RN")] << 13)
     if o == "mem":
         f = env.get("mem")
         if f is None:
